@@ -1,1 +1,56 @@
-From Coq Require Import ZArith.
+(* C10 — The Encoder accepts exactly protocol-respecting histories; errors are sticky.
+   Statements only; proofs in proofs/EncProofs.v.  The automaton is spec/EncAutomaton.v.
+   The clause "every violation-free history with all paths ended decodes to that history"
+   is the round-trip theorem of C01 (props/C01.v). *)
+From Coq Require Import ZArith Bool List.
+From IVG Require Import SF NumCodec Color Calls Encoder EncAutomaton EncProofs.
+Import ListNotations.
+Local Open Scope Z_scope.
+
+(* every call of the Encoder API refines one step of the 4-state automaton *)
+Theorem enc_act_refines : forall e a, wf_act a ->
+  abs (fst (enc_act e a)) = aut_step (abs e) (classify a).
+Proof. exact EncProofs.enc_act_refines. Qed.
+Print Assumptions enc_act_refines.
+
+(* for every finite history (no depth bound), from the zero value *)
+Theorem enc_err_iff_automaton : forall h, Forall wf_act h ->
+  abs (fst (enc_run enc_zero h)) = aut_run (map classify h).
+Proof. exact EncProofs.enc_err_iff_automaton. Qed.
+Print Assumptions enc_err_iff_automaton.
+
+Theorem bytes_err_iff_failed : forall e,
+  (exists x, snd (enc_bytes e) = BytesErr x) <-> abs e = AFailed.
+Proof. exact EncProofs.bytes_err_iff_failed. Qed.
+Print Assumptions bytes_err_iff_failed.
+
+(* the first violation is kept until Reset, whatever is called afterwards *)
+Theorem err_sticky : forall e a, Inv e -> has_err e = true -> is_reset a = false ->
+  e_err (fst (enc_act e a)) = e_err e.
+Proof. exact EncProofs.err_sticky. Qed.
+Print Assumptions err_sticky.
+
+Theorem reachable_inv : forall h e, Inv e -> Inv (fst (enc_run e h)).
+Proof. exact EncProofs.reachable_inv. Qed.
+Print Assumptions reachable_inv.
+
+(* a zero-value Encoder is observationally one reset with the default metadata:
+   every read-back (CSel, NSel, LOD) and every Bytes result of every history agree *)
+Theorem zero_value : forall h,
+  snd (enc_run enc_zero h) = snd (enc_run (enc_reset default_viewbox default_palette) h).
+Proof. exact EncProofs.zero_value. Qed.
+Print Assumptions zero_value.
+
+Theorem bytes_idempotent : forall e,
+  snd (enc_bytes (fst (enc_bytes e))) = snd (enc_bytes e) /\
+  fst (enc_bytes (fst (enc_bytes e))) = fst (enc_bytes e).
+Proof. exact EncProofs.bytes_idempotent. Qed.
+Print Assumptions bytes_idempotent.
+
+(* non-vacuity *)
+Example ex_inv : Inv enc_zero. Proof. exact Inv_zero. Qed.
+Example ex_history :
+  let h := [ACall (CStartPath 0 0 0); ACall (CDraw opL [0; 0]); ACall (CSetCSel 1); ABytes; ACall (CReset default_viewbox default_palette); ABytes] in
+  Forall wf_act h /\ map (fun a => abs (fst (enc_run enc_zero (firstn a h)))) [1; 2; 3; 4; 5; 6]%nat
+  = [ADrawing; ADrawing; AFailed; AFailed; AStyling; AStyling].
+Proof. split; [repeat constructor; try exact I; discriminate|vm_compute; reflexivity]. Qed.
